@@ -331,8 +331,13 @@ func runCase(t *testing.T, r *run.Runner, c *wireCase, idx int) {
 			}
 			if strings.Contains(strings.ToLower(reqText), "if-none-match:") {
 				// validation: a 304 that nominates hop-by-hop fields of its own and updates one field
+				// (every third 304 names no field in Connection: only the fixed hop-by-hop set applies)
+				nominated := "Connection: X-Hop304\r\nX-Hop304: leak\r\n"
+				if idx%3 == 1 {
+					nominated = ""
+				}
 				return []byte("HTTP/1.1 304 Not Modified\r\nEtag: \"wire\"\r\nDate: " + time.Now().UTC().Format(http.TimeFormat) +
-					"\r\nCache-Control: max-age=100000\r\nConnection: X-Hop304\r\nX-Hop304: leak\r\nKeep-Alive: timeout=1\r\nX-New: from-304\r\n\r\n")
+					"\r\nCache-Control: max-age=100000\r\n" + nominated + "Keep-Alive: timeout=1\r\nX-New: from-304\r\n\r\n")
 			}
 			return rawResponse(c, body)
 		})
@@ -468,8 +473,8 @@ func runCase(t *testing.T, r *run.Runner, c *wireCase, idx int) {
 				continue
 			}
 			got := resp2.Header[k]
-			if k == "Content-Length" {
-				continue // framing metadata, checked through the body
+			if k == "Content-Length" && len(got) > 0 {
+				continue // a value that is present is judged against the body below
 			}
 			if !equalStrings(got, vs) {
 				r.Violation("header-differs", sig+label+",field="+fieldClass(k), fmt.Sprintf("end-to-end field %s: origin sent %q, stored response has %q", k, trunc(vs), trunc(got)), nil)
